@@ -136,10 +136,10 @@ Qed.
 (* 6. Restart equivalence: the registry file and the directory are the ONLY state.  Running a
       history in one go equals running a prefix, stopping (all objects discarded), and running
       the rest from the state left on disk. *)
-Theorem restart_equivalence : forall (st : state) (h1 h2 : list op),
-  run_ops st (h1 ++ h2) =
-  let '(st1, o1) := run_ops st h1 in let '(st2, o2) := run_ops st1 h2 in (st2, o1 ++ o2).
-Proof. exact run_ops_app. Qed.
+Theorem restart_equivalence : forall (st : state) (h1 h2 : list gop),
+  run_gops st (h1 ++ h2) =
+  let '(st1, o1) := run_gops st h1 in let '(st2, o2) := run_gops st1 h2 in (st2, o1 ++ o2).
+Proof. exact run_gops_app. Qed.
 
 (* ------------------------------------------------------------------------------------------ *)
 (* 7. An existing output is reused only if it exists and terminated normally; otherwise the
@@ -171,6 +171,26 @@ Theorem parsed_results_same_identity : forall (st : state) (o : op) (r' : reques
 Proof.
   intros st o r' Hr C H. pose proof (parsed_same_identity st o r' (reachable_inv st Hr) C H) as E.
   split; [exact E|]. intros pf Hc. exact (covered_sound id_fields pf r' (o_req o) _ _ Hc E).
+Qed.
+
+(* 8b. The same for optimisations run by autodE's own optimisers (CalculationExecutorO, saved
+       trajectory <name>_opt_trj.zip): in every reachable directory — histories may mix external
+       calculations and optimisations — the optimiser is skipped only when a trajectory saved under
+       the calculation's OWN final name exists, and the result taken (reloaded or fresh) was produced
+       by a request of the same identity. *)
+Theorem optimisation_results_same_identity : forall (st : state) (r r' : request),
+  reachable st -> clean_req r ->
+  (ob_invoked (snd (exec_opt st r)) = false ->
+     fs_exists (st_fs st) (trj_name (ob_name (snd (exec_opt st r)))) = true) /\
+  (ob_energy (snd (exec_opt st r)) = Some r' ->
+     idf r' (ob_name (snd (exec_opt st r))) = idf r (ob_name (snd (exec_opt st r))) /\
+     forall pf, covered pf id_fields = true -> pget pf r' = pget pf r).
+Proof.
+  intros st r r' Hr C. split.
+  - intros H. pose proof (opt_skip_means_trajectory st r H) as E.
+    unfold exec_opt. destruct (fs_find (st_fs st) (trj_name (snd (reg_step (st_reg st) r)))) as [[nm own k]|]; [destruct k|]; exact E.
+  - intros H. pose proof (opt_parsed_same_identity st r r' (reachable_inv st Hr) C H) as E.
+    split; [exact E|]. intros pf Hc. exact (covered_sound id_fields pf r' r _ _ Hc E).
 Qed.
 
 (* ------------------------------------------------------------------------------------------ *)
